@@ -663,6 +663,56 @@ func (g *cgen) directed() []*search.Constraint {
 	return out
 }
 
+// directedDangling: "child" relations (sub-constraint under Any only: whether a relative that
+// exists nowhere counts against All is not documented) for worlds with dangling edge values.
+func (g *cgen) directedDangling() []*search.Constraint {
+	pn := &search.Constraint{CamliType: schema.TypePermanode}
+	tag := func(t string) *search.Constraint {
+		return &search.Constraint{Permanode: &search.PermanodeConstraint{Attr: "tag", Value: t}}
+	}
+	child := func(edge string, sub *search.Constraint) *search.Constraint {
+		return &search.Constraint{Permanode: &search.PermanodeConstraint{Relation: &search.RelationConstraint{Relation: "child", EdgeType: edge, Any: sub}}}
+	}
+	var out []*search.Constraint
+	for _, e := range []string{"", "camliMember", "camliPath:x", "camliPath:y", "seeAlso"} {
+		out = append(out,
+			child(e, pn),
+			child(e, &search.Constraint{Anything: true}),
+			child(e, tag(g.pick(g.w.tags))),
+			&search.Constraint{Logical: &search.LogicalConstraint{Op: "and", A: pn, B: child(e, pn)}},
+			&search.Constraint{Logical: &search.LogicalConstraint{Op: "not", A: child(e, pn)}},
+			&search.Constraint{Logical: &search.LogicalConstraint{Op: "or", A: child(e, tag(g.pick(g.w.tags))), B: tag(g.pick(g.w.tags))}})
+	}
+	// the other direction and value tests on the same attributes
+	for _, e := range []string{"", "seeAlso"} {
+		out = append(out, &search.Constraint{Permanode: &search.PermanodeConstraint{Relation: &search.RelationConstraint{Relation: "parent", EdgeType: e, Any: pn}}})
+	}
+	out = append(out,
+		&search.Constraint{Permanode: &search.PermanodeConstraint{Attr: "camliMember", ValueInSet: pn}},
+		&search.Constraint{Permanode: &search.PermanodeConstraint{Attr: "seeAlso", ValueInSet: &search.Constraint{Anything: true}}},
+		&search.Constraint{Permanode: &search.PermanodeConstraint{Attr: "camliMember", NumValue: &search.IntConstraint{Min: 2}}})
+	return out
+}
+
+// hasChildRelation: some permanode constraint in the tree has a "child" relation.
+func hasChildRelation(c *search.Constraint) bool {
+	if c == nil {
+		return false
+	}
+	if l := c.Logical; l != nil {
+		return hasChildRelation(l.A) || hasChildRelation(l.B)
+	}
+	if pc := c.Permanode; pc != nil {
+		if rc := pc.Relation; rc != nil {
+			if rc.Relation == "child" || hasChildRelation(rc.Any) || hasChildRelation(rc.All) {
+				return true
+			}
+		}
+		return hasChildRelation(pc.ValueInSet)
+	}
+	return false
+}
+
 // classicTree generates constraints from the fragment the code implements without a corpus.
 func (g *cgen) classicTree(depth int) *search.Constraint {
 	if depth <= 0 || g.rng.Intn(3) == 0 {
